@@ -56,6 +56,15 @@ TEXT = {
              "update histories (restarts, replays, old-epoch stragglers, notices, removals, originations) on a real Netceptor.",
         note=BASE_NOTE + "Seen-table expiry and the concurrency of per-connection goroutines are modelled as sequential steps under the "
              "lock facts; notices bypass the epoch test by design (at-most-once per UpdateID only): partial."),
+    "C07": dict(
+        text="Theorems proto_no_crash / proto_script_no_crash (no datagram of any kind, length, JSON shape or field-type substitution, in "
+             "either phase, makes a session step panic or die), proto_never_poisons (no update with a non-positive cost is applied), "
+             "session_isolated (a session can only remove its own connection), plus witness theorems for the four repaired defects. "
+             "Tie: regenerated guard facts (length test before data[0], nil-embedded check, ping guard, cost guard, type dispatch) + "
+             "differential runs of the real runProtocol against scripted sessions in child processes (fatal errors and hangs are "
+             "observed as such), with a lock/termination probe after every script.",
+        note=BASE_NOTE + "encoding/json decoding rules are modelled for the two target structs over a JSON value tree; the wedge claim is "
+             "checked dynamically (lock probe, routing computation terminates) and by the guard facts, not by a lock-order theorem."),
     "C09": dict(
         text="Theorems accept_iff, any_single_failure_refuses, pin_rule / unsupported_pin_refuses, receptor_name_required, "
              "client_bound_to_source (with the excluded colon point as a witness theorem) over the decision model of "
